@@ -67,6 +67,8 @@ class Tape:
             if self.nontrivial > self.limit:
                 raise TapeExhausted()
         if self.concrete is not None:
+            if i >= self.limit:
+                raise TapeExhausted()
             v = self.concrete(i) % k
         elif REPLAY_TAPE is not None:
             v = REPLAY_TAPE[i] if i < len(REPLAY_TAPE) else 0
